@@ -551,7 +551,8 @@ def iter_seq(ex, st: State, it: V):
         seq = fresh(SeqVal, 'iter')
         if cc == 'dictview':
             d = unbox_as(st.read_field(it2, '__dict__'), 'ref')
-            mode = ex.ctx.view_mode.get(id(it2), 'keys') if hasattr(ex.ctx, 'view_mode') else 'keys'
+            mode = it2.py if it2.py in ('keys', 'values', 'items') else (
+                ex.ctx.view_mode.get(id(it2), 'keys') if hasattr(ex.ctx, 'view_mode') else 'keys')
             dom = z3.Select(st.get_arr('DK'), d.e)
             n = z3.Select(st.get_arr('DN'), d.e)
             dvals = z3.Select(st.get_arr('DV'), d.e)
@@ -581,6 +582,35 @@ def iter_seq(ex, st: State, it: V):
         return seq, n, (lambda s, k: vany(seq[k]))
     # unknown iterable: opaque elements
     return None, None, (lambda s, k: vany(fresh(Val, 'elem')))
+
+
+def element_seq(ex, st: State, it: V):
+    """Sequence of the *elements* an iteration over `it` yields (iter_seq returns the key sequence for dict views):
+    for d.values() a sequence v with len(v) == len(d) and v[j] == d[key_j]; d.items() is not representable."""
+    seq, n, elem = iter_seq(ex, st, it)
+    it2 = ex.concrete_kind(st, it, ('ref',))
+    if seq is not None and container_cls(ex, st, it2) == 'dictview':
+        mode = it2.py if it2.py in ('keys', 'values', 'items') else (
+            ex.ctx.view_mode.get(id(it2), 'keys') if hasattr(ex.ctx, 'view_mode') else 'keys')
+        if mode == 'values':
+            d = unbox_as(st.read_field(it2, '__dict__'), 'ref')
+            dvals = z3.Select(st.get_arr('DV'), d.e)
+            vs = fresh(SeqVal, 'values')
+            j = z3.Int('j!vals')
+            st.assume(z3.Length(vs) == n)
+            st.assume(z3.ForAll([j], z3.Implies(z3.And(j >= 0, j < n), vs[j] == z3.Select(dvals, seq[j]))))
+            if getattr(ex.ctx, 'seq_membership_facts', False):
+                # membership form of the same fact: x is a value <=> x is stored under some key of the dict
+                x, kk = z3.Const('x!vals', Val), z3.Const('k!vals', Val)
+                dom = z3.Select(st.get_arr('DK'), d.e)
+                key_of = z3.Function(fresh_name('key_of'), Val, Val)      # skolem: a key under which a value is stored
+                st.assume(z3.ForAll([x], z3.Implies(z3.Contains(vs, z3.Unit(x)),
+                                                    z3.And(z3.Select(dom, key_of(x)), z3.Select(dvals, key_of(x)) == x))))
+                st.assume(z3.ForAll([kk], z3.Implies(z3.Select(dom, kk), z3.Contains(vs, z3.Unit(z3.Select(dvals, kk))))))
+            return vs
+        if mode == 'items':
+            raise Unsupported('sequence of dict items of a symbolic dict')
+    return seq
 
 
 def comprehension(ex, st: State, node):
@@ -847,6 +877,15 @@ def filter_comprehension(ex, st: State, it: V, node, gen):
     st.assume(z3.ForAll([i], z3.Implies(z3.And(i >= 0, i < n, cond_at(i)), z3.And(
         pos_of(i) >= 0, pos_of(i) < z3.Length(rs), rs[pos_of(i)] == item_at(i)))))
     st.set_list_seq(r, rs)
+    if getattr(ex.ctx, 'seq_membership_facts', False) and seq is not None:
+        # membership form of the same characterisation (a consequence of the two index facts above): the condition is
+        # re-expressed over the element instead of its position; only when it depends on the position through the
+        # element alone
+        xm = z3.Const('x!flt', Val)
+        cx = z3.substitute(cexpr, (z3.simplify(item_e), xm), (item_e, xm))
+        if qi.decl().name() not in _consts_of(cx):
+            st.assume(z3.ForAll([xm], z3.Contains(rs, z3.Unit(xm)) == z3.And(z3.Contains(seq, z3.Unit(xm)), cx)))
+            st.ghost['c:last_filter_membership'] = True
     # the skolem functions are exposed to contracts so that they can name witnesses instead of leaving an
     # exists-quantifier to the solver
     st.ghost['c:last_filter'] = {'src_of': src_of, 'pos_of': pos_of, 'result': rs, 'source_len': n}
